@@ -1,4 +1,5 @@
 import SMV.Model.World
+import SMV.Lemmas.Registry
 /-!
 # C12 — Listeners and the model are first-class callback providers, attached once
 
@@ -12,6 +13,19 @@ About the resolution model `Prov` (names → executor items keyed by (name, prov
 That an instance's executors are built from its *own* provider list only (isolation between
 instances) is by construction of the model (`attach` takes the providers as an argument) and is
 checked on the implementation by the correspondence.
+
+About the registry model `Reg` (`SMV/Model/Registry.lean`: specs with group / priority / inline
+callables → priority-ordered executors keyed by `name@provider` or `@callable`; the model the driver
+builds every engine scenario's machine with), for all spec lists, constructor providers, late
+`add_listener` calls and groups:
+* `C12_reg_keys_nodup`: every resolved callback is registered exactly once;
+* `C12_reg_sorted`: call order is `CallbackPriority` order;
+* `C12_reg_sound` / `C12_reg_isolated`: every entry comes from a declared spec of the group and an
+  attached provider (or is an inline callable) — a listener never attached is never called;
+* `C12_reg_complete` / `C12_reg_complete_callable`: every attached provider offering a declared
+  name, and every inline callable, is represented;
+* `C12_reg_reattach`: attaching already attached listeners again changes nothing.
+No side conditions were needed (in particular provider ids need not be distinct).
 -/
 namespace SMV.Prov
 
@@ -211,3 +225,160 @@ example : attach [] [⟨0, [(5, 50)]⟩, ⟨1, [(5, 51), (6, 61)]⟩] [5, 6] =
     [⟨5, 0, 50⟩, ⟨5, 1, 51⟩, ⟨6, 1, 61⟩] := by decide
 
 end SMV.Prov
+
+namespace SMV.Reg
+
+open SMV.Prov
+
+/-- **C12 (registered once).** The keys of an executor are pairwise distinct: every resolved
+callback (`name@provider`, or an inline callable) is registered exactly once, whatever the specs
+(duplicated specs included), however many providers share an id and however often a listener is
+attached. -/
+theorem C12_reg_keys_nodup (specs : List Spec) (ctor : List Provider) (late : List (List Provider))
+    (g : Group) : ((executor specs ctor late g).map (·.key)).Nodup :=
+  executor_induct (fun ex => (ex.map (·.key)).Nodup) specs ctor late g (by simp)
+    fun ex e h _ => add_keys_nodup ex e h
+
+/-- **C12 (call order = priority order).** Priorities never decrease along an executor. -/
+theorem C12_reg_sorted (specs : List Spec) (ctor : List Provider) (late : List (List Provider))
+    (g : Group) : ((executor specs ctor late g).map (·.prio)).Pairwise (· ≤ ·) :=
+  executor_induct (fun ex => (ex.map (·.prio)).Pairwise (· ≤ ·)) specs ctor late g (by simp)
+    fun ex e h _ => add_sorted ex e h
+
+/-- provenance of an entry: a declared spec of the group `g`, resolved inline or against one of the
+providers `ps` -/
+def Sound (specs : List Spec) (ps : List Provider) (g : Group) (e : Entry) : Prop :=
+  ∃ s ∈ specs, s.group = g ∧ e.prio = s.prio ∧ e.only = s.only ∧ e.expected = s.expected ∧
+    ((∃ cb, s.ref = .callable cb ∧ e.key = .callable cb ∧ e.cb = cb) ∨
+     (∃ n p, s.ref = .name n ∧ p ∈ ps ∧ offers p n = some e.cb ∧ e.key = .named n p.id))
+
+theorem sound_of_src (specs : List Spec) (ctor : List Provider) (late : List (List Provider))
+    (g : Group) (x : Entry) (hsrc : Src specs ctor late g x) :
+    Sound specs (ctor ++ late.flatten) g x := by
+  obtain ⟨s, hs, hg, hb⟩ := hsrc
+  refine ⟨s, hs, hg, ?_⟩
+  cases hr : s.ref with
+  | callable cb =>
+    have hx : x = { key := .callable cb, cb := cb, prio := s.prio, only := s.only, expected := s.expected } := by
+      rcases hb with hb | ⟨ls, _, ⟨n, hn⟩, _⟩
+      · exact (mem_buildSpec_callable ctor s cb hr x).mp hb
+      · rw [hr] at hn; cases hn
+    subst hx
+    exact ⟨rfl, rfl, rfl, Or.inl ⟨cb, rfl, rfl, rfl⟩⟩
+  | name n =>
+    have : ∃ p ∈ ctor ++ late.flatten, ∃ cb, offers p n = some cb ∧
+        x = { key := .named n p.id, cb := cb, prio := s.prio, only := s.only, expected := s.expected } := by
+      rcases hb with hb | ⟨ls, hls, _, hb⟩
+      · obtain ⟨p, hp, h⟩ := (mem_buildSpec_name ctor s n hr x).mp hb
+        exact ⟨p, List.mem_append_left _ hp, h⟩
+      · obtain ⟨p, hp, h⟩ := (mem_buildSpec_name ls s n hr x).mp hb
+        exact ⟨p, List.mem_append_right _ (List.mem_flatten.mpr ⟨ls, hls, hp⟩), h⟩
+    obtain ⟨p, hp, cb, ho, rfl⟩ := this
+    exact ⟨rfl, rfl, rfl, Or.inr ⟨n, p, rfl, hp, ho, rfl⟩⟩
+
+/-- **C12 (only declared specs, only attached providers).** Every entry of an executor carries the
+priority / event scope / expected value of a declared spec of that group, and is either that spec's
+inline callable or the attribute an attached provider (constructor or some later `add_listener`)
+offers under the spec's name. -/
+theorem C12_reg_sound (specs : List Spec) (ctor : List Provider) (late : List (List Provider))
+    (g : Group) (e : Entry) (he : e ∈ executor specs ctor late g) :
+    ∃ s ∈ specs, s.group = g ∧ e.prio = s.prio ∧ e.only = s.only ∧ e.expected = s.expected ∧
+      ((∃ cb, s.ref = .callable cb ∧ e.key = .callable cb ∧ e.cb = cb) ∨
+       (∃ n p, s.ref = .name n ∧ p ∈ ctor ++ late.flatten ∧ offers p n = some e.cb ∧
+          e.key = .named n p.id)) := by
+  have key : ∀ e ∈ executor specs ctor late g, Sound specs (ctor ++ late.flatten) g e :=
+    executor_induct (fun ex => ∀ e ∈ ex, Sound specs (ctor ++ late.flatten) g e) specs ctor late g
+      (fun e he => by cases he)
+      fun ex e ih hsrc x hx => by
+        rcases mem_add ex e x hx with rfl | hx'
+        · exact sound_of_src specs ctor late g x hsrc
+        · exact ih x hx'
+  exact key e he
+
+/-- **C12 (isolation).** A name-resolved entry belongs to a provider attached to *this* instance:
+a listener that was never attached here is never called. -/
+theorem C12_reg_isolated (specs : List Spec) (ctor : List Provider) (late : List (List Provider))
+    (g : Group) (e : Entry) (he : e ∈ executor specs ctor late g) (n : Name) (pid : ProvId)
+    (hk : e.key = .named n pid) : pid ∈ (ctor ++ late.flatten).map (·.id) := by
+  obtain ⟨s, _, _, _, _, _, h⟩ := C12_reg_sound specs ctor late g e he
+  rcases h with ⟨cb, _, hk', _⟩ | ⟨n', p, _, hp, _, hk'⟩
+  · rw [hk] at hk'; cases hk'
+  · rw [hk] at hk'
+    cases hk'
+    exact List.mem_map.mpr ⟨p, hp, rfl⟩
+
+/-- **C12 (all providers of a callback name are called).** Every declared name spec of the group
+and every attached provider (constructor or later `add_listener`) offering that name is keyed in
+the executor. -/
+theorem C12_reg_complete (specs : List Spec) (ctor : List Provider) (late : List (List Provider))
+    (g : Group) (s : Spec) (hs : s ∈ specs) (hg : s.group = g) (n : Name) (hr : s.ref = .name n)
+    (p : Provider) (hp : p ∈ ctor ++ late.flatten) (cb : CbId) (ho : offers p n = some cb) :
+    seen (executor specs ctor late g) (.named n p.id) = true := by
+  rw [executor_eq]
+  rcases List.mem_append.mp hp with hc | hl
+  · apply seen_lateFold_mono
+    exact seen_resolveInto_mem false ctor g specs [] s hs ⟨hg, Or.inl rfl⟩ _
+      ((mem_buildSpec_name ctor s n hr _).mpr ⟨p, hc, cb, ho, rfl⟩)
+  · obtain ⟨ls, hls, hpl⟩ := List.mem_flatten.mp hl
+    exact seen_lateFold_mem specs g late _ ls hls s hs ⟨hg, Or.inr ⟨n, hr⟩⟩ _
+      ((mem_buildSpec_name ls s n hr _).mpr ⟨p, hpl, cb, ho, rfl⟩)
+
+/-- … and every inline callable / decorated function declared for the group is keyed (it is
+resolved by the constructor pass, independently of the providers). -/
+theorem C12_reg_complete_callable (specs : List Spec) (ctor : List Provider)
+    (late : List (List Provider)) (g : Group) (s : Spec) (hs : s ∈ specs) (hg : s.group = g)
+    (cb : CbId) (hr : s.ref = .callable cb) :
+    seen (executor specs ctor late g) (.callable cb) = true := by
+  rw [executor_eq]
+  apply seen_lateFold_mono
+  exact seen_resolveInto_mem false ctor g specs [] s hs ⟨hg, Or.inl rfl⟩ _
+    ((mem_buildSpec_callable ctor s cb hr _).mpr rfl)
+
+/-- **C12 (attached once).** An `add_listener` call whose listeners are all attached already —
+at construction or by any earlier `add_listener` — leaves every executor exactly as it was: the
+same listener attached again never has its callbacks duplicated (or reordered). -/
+theorem C12_reg_reattach (specs : List Spec) (ctor : List Provider) (late : List (List Provider))
+    (ls : List Provider) (g : Group) (h : ∀ p ∈ ls, p ∈ ctor ++ late.flatten) :
+    executor specs ctor (late ++ [ls]) g = executor specs ctor late g := by
+  rw [executor_snoc]
+  apply resolveInto_saturated
+  intro s hs ha e he
+  obtain ⟨hg, hf | ⟨n, hr⟩⟩ := ha
+  · cases hf
+  · obtain ⟨p, hp, cb, ho, rfl⟩ := (mem_buildSpec_name ls s n hr e).mp he
+    exact C12_reg_complete specs ctor late g s hs hg n hr p (h p hp) cb ho
+
+/-- view of an entry as a tuple (key, callback, priority, event scope, expected) -/
+def Entry.view (e : Entry) : Key × CbId × Nat × Option EventId × Bool :=
+  (e.key, e.cb, e.prio, e.only, e.expected)
+
+/- Non-vacuity: machine `0` offers names 5 and 6, model `1` offers 5, the late listener `2` offers
+5 and 7. Group `before` declares name 5 (NAMING 30), the inline callable 90 (INLINE 10), the generic
+name 6 (GENERIC 0), name 7 (INLINE 10) and — a duplicate — name 5 again; group `on` declares name 5.
+The listener `2` is attached late, then once more together with the model. -/
+example :
+    (executor
+      [⟨.before, .name 5, 30, some 3, true⟩, ⟨.before, .callable 90, 10, none, true⟩,
+       ⟨.on, .name 5, 10, none, true⟩, ⟨.before, .name 6, 0, none, true⟩,
+       ⟨.before, .name 7, 10, none, true⟩, ⟨.before, .name 5, 30, some 3, true⟩]
+      [⟨0, [(5, 50), (6, 60)]⟩, ⟨1, [(5, 51)]⟩]
+      [[⟨2, [(5, 52), (7, 72)]⟩], [⟨2, [(5, 52), (7, 72)]⟩, ⟨1, [(5, 51)]⟩]]
+      .before).map Entry.view =
+    [(.named 6 0, 60, 0, none, true),
+     (.callable 90, 90, 10, none, true),
+     (.named 7 2, 72, 10, none, true),
+     (.named 5 0, 50, 30, some 3, true),
+     (.named 5 1, 51, 30, some 3, true),
+     (.named 5 2, 52, 30, some 3, true)] := by decide
+
+example :
+    (executor
+      [⟨.before, .name 5, 30, some 3, true⟩, ⟨.before, .callable 90, 10, none, true⟩,
+       ⟨.on, .name 5, 10, none, true⟩, ⟨.before, .name 6, 0, none, true⟩]
+      [⟨0, [(5, 50), (6, 60)]⟩, ⟨1, [(5, 51)]⟩]
+      [[⟨2, [(5, 52), (7, 72)]⟩], [⟨2, [(5, 52), (7, 72)]⟩]]
+      .on).map Entry.view =
+    [(.named 5 0, 50, 10, none, true), (.named 5 1, 51, 10, none, true),
+     (.named 5 2, 52, 10, none, true)] := by decide
+
+end SMV.Reg
